@@ -688,6 +688,15 @@ Redir:
 }
 
 func (l *lexer) lexHeredoc() action {
+	if !l.readHeredocs() {
+		return nil
+	}
+	return l.lexToken('\n')
+}
+
+// readHeredocs reads the bodies of the pending here-documents. It
+// reports whether lexing can be continued.
+func (l *lexer) readHeredocs() bool {
 	find := func(r *ast.Redir, delim string) bool {
 		for i := len(l.word) - 1; i >= 0; i-- {
 			if l.word[i].Pos().Col() == 1 {
@@ -724,7 +733,7 @@ func (l *lexer) lexHeredoc() action {
 			if err != nil {
 				if !l.heredoc.exists() {
 					if l.lit(); find(h, delim) {
-						return nil
+						return false
 					}
 				}
 				goto Error
@@ -767,14 +776,14 @@ func (l *lexer) lexHeredoc() action {
 					l.lit()
 					l.mark(-1)
 					if !l.scanParamExp() {
-						return nil
+						return false
 					}
 				case '`':
 					// command substitution
 					l.lit()
 					l.mark(-1)
 					if !l.scanCmdSubst('`') {
-						return nil
+						return false
 					}
 				default:
 					l.b.WriteRune(r)
@@ -788,10 +797,10 @@ func (l *lexer) lexHeredoc() action {
 			if err == io.EOF {
 				l.error(h.OpPos, "syntax error: here-document delimited by EOF")
 			}
-			return nil
+			return false
 		}
 	}
-	return l.lexToken('\n')
+	return true
 }
 
 func (l *lexer) scanArithExpr(pos ast.Pos) int {
@@ -1528,6 +1537,10 @@ func (l *lexer) linebreak() bool {
 			hash = false
 			l.comment()
 			l.mark(0)
+			// the bodies of pending here-documents begin here
+			if l.heredoc.exists() && !l.readHeredocs() {
+				return false
+			}
 		case '#':
 			// comment
 			hash = true
